@@ -130,8 +130,16 @@ static int r_cpr(const Witness &w) {
 // ------------------------------------------------------------------------------------------------
 // schur_pressure_correction::init: sub-blocks and gather / scatter matrices
 static int r_schur(const Witness &w, bool blocks) {
-    if (!w.has("w_K_nrows") || !w.has("w_pmask")) { std::cout << "no witness input" << std::endl; return 3; }
-    auto K = crs_from(w, "K");
+    if (!(w.has("w_K_nrows") || w.has("w_n")) || !w.has("w_pmask")) { std::cout << "no witness input" << std::endl; return 3; }
+    std::shared_ptr<Crs> K;
+    if (w.has("w_K_nrows")) K = crs_from(w, "K");
+    else {      // the gather / scatter region does not read K: any matrix of the witness size will do (identity pattern)
+        const size_t m = (size_t)w.num("w_n");
+        K = std::make_shared<Crs>(); K->set_size(m, m, true);
+        for (size_t i = 0; i <= m; ++i) K->ptr[i] = (ptrdiff_t)i;
+        K->set_nonzeros(m);
+        for (size_t i = 0; i < m; ++i) { K->col[i] = (ptrdiff_t)i; K->val[i] = 1; }
+    }
     const size_t n = K->nrows;
     std::vector<double> pm = w.arr("w_pmask");
     std::string why;
@@ -203,7 +211,7 @@ int main(int argc, char **argv) {
     if (!w.load(std::string(argv[2]) + ".in")) { std::cout << "no witness input" << std::endl; return 3; }
     try {
         if (unit == "cpr_first_scalar_pass") return r_cpr(w);
-        if (unit == "schur_init_blocks") return r_schur(w, true);
+        if (unit == "schur_init_blocks" || unit == "schur_init_counts" || unit == "schur_init_fill_row") return r_schur(w, true);
         if (unit == "schur_init_scatter") return r_schur(w, false);
     } catch (const std::exception &e) {
         std::cout << "REPRODUCED on the real code: exception: " << e.what() << std::endl;
